@@ -210,3 +210,201 @@ def reads_fields(P, fpath, adt_ty_pred, depth=3, seen=None):
 
 def check_partition(chk, P, cal):
     pass
+
+
+# ---- term helpers -----------------------------------------------------------------------
+
+def unref(t):
+    while t[0] in ("ref", "deref"):
+        t = t[1]
+    return t
+
+
+def arg_field(t):
+    """(arg index, field index|None) if the term is (a reference to) an argument or one of its fields"""
+    t = unref(t)
+    if t[0] == "arg":
+        return (t[1], None)
+    if t[0] == "field":
+        b = unref(t[1])
+        if b[0] == "arg":
+            return (b[1], t[2])
+    return None
+
+
+def is_call(t, name=None, suffix=None):
+    if t[0] != "call" or not isinstance(t[1], str):
+        return False
+    if name is not None and t[1] != name:
+        return False
+    if suffix is not None and not t[1].endswith(suffix):
+        return False
+    return True
+
+
+def find_calls(t, pred=lambda c: True):
+    return [x for x in walk_terms(t) if x[0] == "call" and pred(x)]
+
+
+def result_variant(t):
+    """('Some'|'None'|'Ok'|'Err'|..., payload terms) if the term is an enum aggregate"""
+    if t is not None and t[0] == "agg" and t[1] == "adt":
+        return t[3], t[4]
+    return None, ()
+
+
+CMP_FLIP = {"Lt": "Gt", "Le": "Ge", "Gt": "Lt", "Ge": "Le", "Eq": "Eq", "Ne": "Ne"}
+CMP_NEG = {"Lt": "Ge", "Le": "Gt", "Gt": "Le", "Ge": "Lt", "Eq": "Ne", "Ne": "Eq"}
+
+
+def _through_casts(t):
+    while t[0] == "cast" and t[3].startswith("IntToInt"):
+        t = t[1]
+    return t
+
+
+def cond_constraints(conds, subjects):
+    """translate the switch conditions of a path into interval constraints on `subjects`
+    (a dict name -> term). Returns dict name -> [lo, hi] (None = unbounded) and the list of
+    conditions that could not be interpreted."""
+    box = {n: [None, None] for n in subjects}
+    other = []
+    inv = {}
+    for n, t in subjects.items():
+        inv[t] = n
+        inv[_through_casts(t)] = n
+
+    def name_of(t):
+        t0 = _through_casts(t)
+        return inv.get(t) or inv.get(t0)
+
+    def apply(n, op, c):
+        lo, hi = box[n]
+        if op == "Lt":
+            hi = c - 1 if hi is None else min(hi, c - 1)
+        elif op == "Le":
+            hi = c if hi is None else min(hi, c)
+        elif op == "Gt":
+            lo = c + 1 if lo is None else max(lo, c + 1)
+        elif op == "Ge":
+            lo = c if lo is None else max(lo, c)
+        elif op == "Eq":
+            lo = c if lo is None else max(lo, c)
+            hi = c if hi is None else min(hi, c)
+        elif op == "Ne":
+            if lo is not None and lo == c:
+                lo = c + 1
+            elif hi is not None and hi == c:
+                hi = c - 1
+            else:
+                return False
+        box[n] = [lo, hi]
+        return True
+
+    for c in conds:
+        if c[0][0] != "switch":
+            continue
+        d, v = c[1], c[2]
+        done = False
+        if d[0] == "bin" and d[1] in CMP_FLIP:
+            op, l, r = d[1], d[2], d[3]
+            truth = None
+            if isinstance(v, tuple):           # else-branch of a bool switch [0 -> ..]: true
+                if v[1] == (0,):
+                    truth = True
+            elif v == 0:
+                truth = False
+            elif v == 1:
+                truth = True
+            if truth is not None:
+                if not truth:
+                    op = CMP_NEG[op]
+                nl, nr = name_of(l), name_of(r)
+                cl, cr = const_of(l), const_of(r)
+                if nl and isinstance(cr, int) and not isinstance(cr, bool):
+                    done = apply(nl, op, cr)
+                elif nr and isinstance(cl, int) and not isinstance(cl, bool):
+                    done = apply(nr, CMP_FLIP[op], cl)
+        else:
+            n = name_of(d)
+            if n is not None:
+                if isinstance(v, tuple):
+                    done = all(apply(n, "Ne", x) or True for x in v[1])
+                else:
+                    done = apply(n, "Eq", v)
+        if not done:
+            other.append(c)
+    return box, other
+
+
+def accept_boxes(P, fpath, subjects, success=("Some", "Ok"), s=None, paths=None):
+    """for every path of `fpath` that returns a success variant: the constraint box on `subjects`.
+    Returns list of (box, uninterpreted conds, path)."""
+    s = s or Sym(P, fpath)
+    out = []
+    for p in (paths if paths is not None else s.paths()):
+        if p.end[0] != "return":
+            continue
+        var, _ = result_variant(p.ret)
+        if var is not None and var not in success:
+            continue
+        box, other = cond_constraints(p.conds, subjects)
+        out.append((box, other, p))
+    return out
+
+
+def hull(boxes, name):
+    lo = hi = None
+    first = True
+    for b in boxes:
+        l, h = b[name]
+        if first:
+            lo, hi = l, h
+            first = False
+        else:
+            lo = None if (lo is None or l is None) else min(lo, l)
+            hi = None if (hi is None or h is None) else max(hi, h)
+    return lo, hi
+
+
+def aggregate_sites(P, adt):
+    """[(fn path, block, stmt index, rvalue)] of every construction site of `adt` in the crate's fn bodies"""
+    out = []
+    for name, f in P.fns.items():
+        if "mir" not in f:
+            continue
+        for bi, b in enumerate(f["mir"]["blocks"]):
+            if b.get("cleanup"):
+                continue
+            for si, st in enumerate(b["s"]):
+                rv = st.get("rv")
+                if rv and rv["k"] == "agg" and rv.get("adt") == adt:
+                    out.append((name, bi, si, st))
+    return out
+
+
+def field_writes(P, adt_pred):
+    """[(fn, line, field)] of assignments through a field projection of a place whose type matches"""
+    out = []
+    for name, f in P.fns.items():
+        if "mir" not in f:
+            continue
+        m = f["mir"]
+        for b in m["blocks"]:
+            if b.get("cleanup"):
+                continue
+            for st in b["s"]:
+                if st["k"] != "assign" or not st["pl"]["p"]:
+                    continue
+                ty = m["locals"][st["pl"]["l"]]
+                for e in st["pl"]["p"]:
+                    t = P.ty(ty)
+                    if e == "*":
+                        ty = t.get("inner", ty)
+                    elif e[0] == "f":
+                        if adt_pred(t):
+                            out.append((name, st["ln"], e[1]))
+                        ty = e[2]
+                    else:
+                        break
+    return out
